@@ -101,12 +101,31 @@ func (w *World) canon(v ssa.Value, d int) string {
 	case *ssa.IndexAddr:
 		return w.canon(x.X, d+1) + "[" + w.canonIndex(x.Index, d+1) + "]"
 	case *ssa.Index:
+		if w.cur != nil && w.cur.st != nil && len(w.cur.st.mem) > 0 {
+			if base, idx, isCell := memCellOf(x); isCell {
+				if ix, ok := evalIntSt(idx, w.cur.st, 0); ok {
+					if mv, ok := w.cur.st.mem[memKey{base, ix}]; ok {
+						return mv.s
+					}
+				}
+			}
+		}
 		return w.canon(x.X, d+1) + "[" + w.canonIndex(x.Index, d+1) + "]"
 	case *ssa.Lookup:
 		return w.canon(x.X, d+1) + "[" + w.canon(x.Index, d+1) + "]"
 	case *ssa.UnOp:
 		switch x.Op {
 		case token.MUL:
+			// a cell of a local array written on the path being enumerated: what was stored
+			if w.cur != nil && w.cur.st != nil && len(w.cur.st.mem) > 0 {
+				if base, idx, isCell := memCellOf(x); isCell {
+					if ix, ok := evalIntSt(idx, w.cur.st, 0); ok {
+						if mv, ok := w.cur.st.mem[memKey{base, ix}]; ok {
+							return mv.s
+						}
+					}
+				}
+			}
 			return w.canon(x.X, d+1)
 		case token.NOT:
 			return negateCond(w.canon(x.X, d+1))
@@ -221,7 +240,8 @@ func (w *World) canon(v ssa.Value, d int) string {
 // unchanged and complete, the results of one call made in fn (`if exec { return
 // L.GetFinality(k) }; return L.Get(k)`), and fn does nothing else. Returns those calls.
 func (w *World) forwardedCalls(fn *ssa.Function) []*ssa.Call {
-	if fn == nil || fn.Blocks == nil || !w.InModule(fn) || (fn.Parent() == nil && token.IsExported(fn.Name())) || len(fn.Blocks) < 2 || len(fn.Blocks) > 12 {
+	isClosure := fn != nil && fn.Parent() != nil
+	if fn == nil || fn.Blocks == nil || !w.InModule(fn) || (!isClosure && token.IsExported(fn.Name())) || (!isClosure && len(fn.Blocks) < 2) || len(fn.Blocks) > 12 {
 		return nil
 	}
 	if w.fwdMemo == nil {
@@ -240,7 +260,7 @@ func (w *World) forwardedCalls(fn *ssa.Function) []*ssa.Call {
 	for _, b := range fn.Blocks {
 		ret, ok := lastInstr(b).(*ssa.Return)
 		if !ok {
-			if _, isP := lastInstr(b).(*ssa.Panic); isP {
+			if _, isP := lastInstr(b).(*ssa.Panic); isP && !isClosure {
 				return nil
 			}
 			continue
@@ -258,13 +278,18 @@ func (w *World) forwardedCalls(fn *ssa.Function) []*ssa.Call {
 					c = cc
 				}
 			}
-			if c == nil || (call != nil && c != call) || c.Block() != b {
+			// in a local closure the forwarded call may sit before a test of the result it
+			// does not hand on (`h, v, err := x.Commit(); if err != nil { panic }; return h, v`)
+			if c == nil || (call != nil && c != call) || (c.Block() != b && !isClosure) {
 				return nil
 			}
 			call = c
 		}
-		if call == nil || fwd[call] {
+		if call == nil || (fwd[call] && !isClosure) {
 			return nil
+		}
+		if fwd[call] {
+			continue
 		}
 		fwd[call] = true
 		out = append(out, call)
@@ -286,7 +311,7 @@ func (w *World) forwardedCalls(fn *ssa.Function) []*ssa.Call {
 			}
 		}
 	}
-	if len(out) < 2 {
+	if len(out) < 2 && !(isClosure && len(out) == 1) {
 		return nil
 	}
 	w.fwdMemo[fn] = out
@@ -296,16 +321,23 @@ func (w *World) forwardedCalls(fn *ssa.Function) []*ssa.Call {
 // canonForwarded prints the result of a selector call as the join of what it forwards.
 func (w *World) canonForwarded(c *ssa.Call, idx int, d int) (string, bool) {
 	fn := c.Common().StaticCallee()
+	args := c.Common().Args
+	if fn == nil && !c.Common().IsInvoke() && w.cur != nil && w.cur.st != nil {
+		// a function value the path determines (an element of a literal table of closures)
+		if f, rcv := w.calleeOfValue(w.resolveValue(c.Common().Value, w.cur.st, w.cur.eval, 3)); f != nil && rcv == nil {
+			fn = f
+		}
+	}
 	if fn == nil || len(w.inlineEnv) >= 3 {
 		return "", false
 	}
 	fw := w.forwardedCalls(fn)
-	if fw == nil || len(fn.Params) != len(c.Common().Args) {
+	if fw == nil || len(fn.Params) != len(args) {
 		return "", false
 	}
 	env := map[*ssa.Parameter]string{}
 	for i, p := range fn.Params {
-		env[p] = w.canon(c.Common().Args[i], d+1)
+		env[p] = w.canon(args[i], d+1)
 	}
 	w.inlineEnv = append(w.inlineEnv, env)
 	set := map[string]bool{}
